@@ -46,10 +46,17 @@ func vxDrawUUIDBytes(t *rapid.T, label string) []byte {
 	return b
 }
 
+func vxC19Not(u UUID) UUID {
+	for i := range u {
+		u[i] = ^u[i]
+	}
+	return u
+}
+
 func TestVxC19RoundTrip(t *testing.T) {
 	vx.Check(t, vx.Prop{
 		ID: "C19", Part: "TestVxC19RoundTrip",
-		Rule: "16 drawn bytes (uniform / boundary bytes / high nibbles) x textual form; non-trivial = the UUID has at least 8 distinct byte values (so a swapped or shifted nibble shows); distinct by (bytes, form)",
+		Rule: "16 drawn bytes (uniform / boundary bytes / high nibbles) x textual form; parse, JSON and text round trips into fresh destinations and into destinations that already hold another UUID; non-trivial = the UUID has at least 8 distinct byte values (so a swapped or shifted nibble shows); distinct by (bytes, form)",
 		Draw: func(t *rapid.T) interface{} {
 			return &vxC19RT{U: hex.EncodeToString(vxDrawUUIDBytes(t, "b")), Form: rapid.IntRange(0, 3).Draw(t, "form")}
 		},
@@ -124,6 +131,22 @@ func TestVxC19RoundTrip(t *testing.T) {
 			var ut UUID
 			if err := ut.UnmarshalText(tb); err != nil || ut != u {
 				return fmt.Errorf("UnmarshalText(MarshalText) = %x, %v", ut[:], err)
+			}
+			// destinations that hold another UUID already (a reused variable, a json.Decoder loop): all
+			// bits set, and the bitwise complement of the value
+			for _, old := range []UUID{{0xff, 0xff, 0xff, 0xff, 0xff, 0xff, 0xff, 0xff, 0xff, 0xff, 0xff, 0xff, 0xff, 0xff, 0xff, 0xff}, vxC19Not(u)} {
+				d := old
+				if err := d.UnmarshalJSON(jb); err != nil || d != u {
+					return fmt.Errorf("UnmarshalJSON(%s) into a UUID holding %x = %x, %v; want %x", jb, old[:], d[:], err, u[:])
+				}
+				d = old
+				if err := d.UnmarshalText(tb); err != nil || d != u {
+					return fmt.Errorf("UnmarshalText(%s) into a UUID holding %x = %x, %v; want %x", tb, old[:], d[:], err, u[:])
+				}
+				w2 := wrap{A: old}
+				if err := json.Unmarshal(wb, &w2); err != nil || w2.A != u {
+					return fmt.Errorf("encoding/json into a struct whose UUID field holds %x: got %x, %v; want %x", old[:], w2.A[:], err, u[:])
+				}
 			}
 			return nil
 		},
